@@ -15,36 +15,36 @@ package pool
 //@ pure func poolInv(p *P) bool = p.keys != nil ==> (forall k string :: has(p.keys, k) ==> p.keys[k].c != nil && !chanclosed(p.keys[k].c)) && (forall k string, j string :: has(p.keys, k) && has(p.keys, j) && k != j ==> p.keys[k].c != p.keys[j].c)
 //@ extern func (*P).CleanUp#Lock$call(m *sync.Mutex)
 //@   requires !gHeld
-//@   modifies gHeld, p.keys, mapOf(p.keys), chanstate()
+//@   modifies gHeld, p.keys, allMaps("map[string]slot"), chanstate()
 //@   ensures gHeld && poolInv(p)
 //@ extern func (*P).CleanUp#Unlock$call(m *sync.Mutex)
 //@   requires gHeld && poolInv(p)
-//@   modifies gHeld, p.keys, mapOf(p.keys), chanstate()
+//@   modifies gHeld, p.keys, allMaps("map[string]slot"), chanstate()
 //@   ensures !gHeld
 //@ extern func (*P).Get#Lock$call(m *sync.Mutex)
 //@   requires !gHeld
-//@   modifies gHeld, p.keys, mapOf(p.keys), chanstate()
+//@   modifies gHeld, p.keys, allMaps("map[string]slot"), chanstate()
 //@   ensures gHeld && poolInv(p)
 //@ extern func (*P).Get#Unlock$call(m *sync.Mutex)
 //@   requires gHeld && poolInv(p)
-//@   modifies gHeld, p.keys, mapOf(p.keys), chanstate()
+//@   modifies gHeld, p.keys, allMaps("map[string]slot"), chanstate()
 //@   ensures !gHeld
 //@ extern func (*P).Return#Lock$call(m *sync.Mutex)
 //@   requires !gHeld
-//@   modifies gHeld, p.keys, mapOf(p.keys), chanstate()
+//@   modifies gHeld, p.keys, allMaps("map[string]slot"), chanstate()
 //@   ensures gHeld && poolInv(p)
 //@   ensures p.keys != nil ==> (forall k string :: has(p.keys, k) ==> !fresh(p.keys[k].c))
 //@ extern func (*P).Return#Unlock$call(m *sync.Mutex)
 //@   requires gHeld && poolInv(p)
-//@   modifies gHeld, p.keys, mapOf(p.keys), chanstate()
+//@   modifies gHeld, p.keys, allMaps("map[string]slot"), chanstate()
 //@   ensures !gHeld
 //@ extern func (*P).Close#Lock$call(m *sync.Mutex)
 //@   requires !gHeld
-//@   modifies gHeld, p.keys, mapOf(p.keys), chanstate()
+//@   modifies gHeld, p.keys, allMaps("map[string]slot"), chanstate()
 //@   ensures gHeld && poolInv(p)
 //@ extern func (*P).Close#Unlock$call(m *sync.Mutex)
 //@   requires gHeld && poolInv(p)
-//@   modifies gHeld, p.keys, mapOf(p.keys), chanstate()
+//@   modifies gHeld, p.keys, allMaps("map[string]slot"), chanstate()
 //@   ensures !gHeld
 // Connections: Usable / LastUseAt / Close of the pooled objects (interface; assumed not to touch the pool).
 //@ ghost var gUsableOK Set[ref]
@@ -78,7 +78,7 @@ package pool
 //@   nopanic
 //@   chan-nonnil
 //@   requires[C19] p != nil && !gHeld && c != nil
-//@   modifies *
+//@   modifies gHeld, p.keys, allMaps("map[string]slot"), chanstate()
 //@   ensures !gHeld
 //@   assert-load keys : gHeld
 //@   assert-store keys : gHeld
